@@ -67,7 +67,7 @@ def setup():
 def _workload(case, rng):
     """traces, data, subject spec for the case."""
     name, prec, regime = case['subject'], case['precision'], case['regime']
-    n = gen.pick_n(rng, [1, 2, 3, 5, 8, 13, 30, 60, 150, 400]) if name in CHEAP else gen.pick_n(rng, [2, 3, 5, 9, 20, 45, 120], hi=260)
+    n = gen.pick_n(rng, [1, 2, 3, 5, 8, 13, 30, 60, 150, 400, 600, 1100]) if name in CHEAP else gen.pick_n(rng, [2, 3, 5, 9, 20, 45, 120], hi=260)
     T = int(rng.integers(1, 13)) if name not in ('tbuild', 'tstatic', 'tdpa') else int(rng.integers(1, 6))
     ws = gen.WORD_SHAPES[int(rng.integers(len(gen.WORD_SHAPES)))]
     spec = dict(name=name, precision=prec)
